@@ -63,6 +63,7 @@ def step (line : String) : String :=
   | "hspec" :: rest => C16H.runHspec (parseKV rest)
   | "layout" :: rest => runLayout (parseKV rest)
   | "mapops" :: rest => runMapops (parseKV rest)
+  | "mapwide" :: rest => runMapwide (parseKV rest)
   | "qr" :: rest => runQR (parseKV rest)
   | "qrf" :: rest => runQRF (parseKV rest)
   | "lu" :: rest => runLU (parseKV rest)
